@@ -295,18 +295,18 @@ parser! {
       / h:hours() { h }
       / m:minutes() { m }
       / s:seconds() { s }
-    rule days() -> DurationLiteral = days:fixed_point() dt_sep("d") { DurationLiteral::days(days) } / days:integer() dt_sep("d") dt_sep("_")? hours:hours() { hours.plus(DurationLiteral::days(days.into())) }
+    rule days() -> DurationLiteral = days:fixed_point() dt_sep("d") {? DurationLiteral::try_days(days) } / days:integer() dt_sep("d") dt_sep("_")? hours:hours() {? hours.try_plus(DurationLiteral::try_days(days.try_into()?)?) }
     rule fixed_point() -> FixedPoint =
       fp:tok(TokenType::FixedPoint) {?
         FixedPoint::parse(fp.text.as_str())
       }
       / i:integer() {?
-        Ok(i.into())
+        i.try_into()
     }
-    rule hours() -> DurationLiteral = hours:fixed_point() dt_sep("h") { DurationLiteral::hours(hours) } / hours:integer() dt_sep("h") dt_sep("_")? min:minutes() { min.plus(DurationLiteral::hours(hours.into())) }
-    rule minutes() -> DurationLiteral = min:fixed_point() dt_sep("m") { DurationLiteral::minutes(min) } / mins:integer() dt_sep("m") dt_sep("_")? sec:seconds() { sec.plus(DurationLiteral::minutes(mins.into())) }
-    rule seconds() -> DurationLiteral = secs:fixed_point() dt_sep("s") { DurationLiteral::seconds(secs) } / sec:integer() dt_sep("s") dt_sep("_")? ms:milliseconds() { ms.plus(DurationLiteral::seconds(sec.into())) }
-    rule milliseconds() -> DurationLiteral = ms:fixed_point() dt_sep("ms") { DurationLiteral::milliseconds(ms) }
+    rule hours() -> DurationLiteral = hours:fixed_point() dt_sep("h") {? DurationLiteral::try_hours(hours) } / hours:integer() dt_sep("h") dt_sep("_")? min:minutes() {? min.try_plus(DurationLiteral::try_hours(hours.try_into()?)?) }
+    rule minutes() -> DurationLiteral = min:fixed_point() dt_sep("m") {? DurationLiteral::try_minutes(min) } / mins:integer() dt_sep("m") dt_sep("_")? sec:seconds() {? sec.try_plus(DurationLiteral::try_minutes(mins.try_into()?)?) }
+    rule seconds() -> DurationLiteral = secs:fixed_point() dt_sep("s") {? DurationLiteral::try_seconds(secs) } / sec:integer() dt_sep("s") dt_sep("_")? ms:milliseconds() {? ms.try_plus(DurationLiteral::try_seconds(sec.try_into()?)?) }
+    rule milliseconds() -> DurationLiteral = ms:fixed_point() dt_sep("ms") {? DurationLiteral::try_milliseconds(ms) }
 
     // 1.2.3.2 Time of day and date
     rule time_of_day() -> TimeOfDayLiteral = tok(TokenType::TimeOfDay) tok(TokenType::Hash) d:daytime() { TimeOfDayLiteral::new(d) }
